@@ -30,10 +30,10 @@ func (g *verifGraph) EdgesFrom(u int) []int {
 	return r
 }
 
-var verifC05uMaxN = 4
+func verifC05u() { verifC05uRun(4) }
 
-func verifC05u() {
-	n := verifNdInt("n", verifC05uMaxN+1)
+func verifC05uRun(maxN int) {
+	n := verifNdInt("n", maxN+1)
 	g := &verifGraph{n: n}
 	g.adj = make([][]int, n)
 	for u := 0; u < n; u++ {
@@ -90,4 +90,10 @@ func verifC05u() {
 	}
 }
 
-func init() { verifEntries["verifC05u"] = verifC05u }
+// verifT05u: the same over every digraph with up to 5 nodes (thorough tier).
+func verifT05u() { verifC05uRun(5) }
+
+func init() {
+	verifEntries["verifC05u"] = verifC05u
+	verifEntries["verifT05u"] = verifT05u
+}
